@@ -22,45 +22,7 @@ from sa.report import Ctx, split_known, write_evidence, VERIF  # noqa: E402
 ALL = ['C%02d' % i for i in range(1, 21)]
 
 
-def check_local_anchors(model, prop):
-    """Local-variable names the rules of this property rely on (table generated by
-    tools/discover_local_anchors.py).  A vanished local is a vanished anchor: no verdict."""
-    import ast
-    path = os.path.join(HERE, 'sa', 'rules', 'local_anchors.json')
-    if not os.path.exists(path):
-        return 0
-    data = json.load(open(path))
-    table = data.get('anchors', {})
-    ref_fps = data.get('fingerprints', {})
-    from sa import localfp
-    n = 0
-    for key, locs in table.items():
-        rel, qn = key.split('::')
-        mod = rel[len('billiard/'):-3].replace('/', '.')
-        if mod.endswith('.__init__'):
-            mod = mod[:-9]
-        fi = model.funcs.get('%s:%s' % (mod, qn))
-        for name, props in locs.items():
-            if prop not in props:
-                continue
-            n += 1
-            if fi is None:
-                raise AnalysisError('anchor function %s (local `%s`) not found' % (key, name))
-            present = any((isinstance(x, ast.Name) and x.id == name and isinstance(x.ctx, (ast.Store, ast.Del))) or
-                          (isinstance(x, ast.ExceptHandler) and x.name == name) for x in ast.walk(fi.node))
-            if not present:
-                # a pure rename?  exactly one local that is new in this function and is defined the way `name` was
-                # on the reference tree (other locals abstracted): read the function with it renamed back
-                ref = ref_fps.get(key, {})
-                cur = localfp.fingerprints(fi.node)
-                cands = [l for l, fp in cur.items() if l not in ref and list(fp) == list(ref.get(name, ['?']))]
-                if len(cands) == 1 and ref.get(name):
-                    localfp.rename_in(fi.node, {cands[0]: name})
-                    model.renamed_back = getattr(model, 'renamed_back', []) + ['%s: %s -> %s' % (key, cands[0], name)]
-                    continue
-                raise AnalysisError('local variable `%s` of %s, which the rules of %s refer to by name, no longer '
-                                    'exists (renamed?): no verdict' % (name, key, prop))
-    return n
+from sa.localfp import check_local_anchors      # noqa: E402
 
 
 def run_rules(model, prop, tier):
